@@ -13,6 +13,8 @@ import (
 	"verif/engine/par"
 	"verif/engine/simdisk"
 	"verif/engine/xstate"
+
+	txfile "github.com/elastic/go-txfile"
 )
 
 // C01: crash atomicity and durability. For selected transitions of the
@@ -67,16 +69,23 @@ type CrashTask struct {
 	// boundary the images "nothing pending persisted", "everything pending
 	// persisted" (up to the 63-unit window), "first half persisted".
 	Coarse bool `json:"coarse,omitempty"`
+	// Resize: the last operation is an open that changes the maximum size. Its open-time
+	// transactions advance the header txid without changing the logical state, so every txid
+	// between the last acknowledged commit and the txid the open ended with maps to that state.
+	// Every image is recovered twice: by a plain open (limit on disk must be the old or the new
+	// one) and by an open that asks for the new limit again (the restarted application).
+	Resize bool `json:"resize,omitempty"`
 	// Only: evaluate just this image (replay)
 	Only *ImageRecipe `json:"only,omitempty"`
 }
 
 // ImageRecipe identifies one crash image of a path.
 type ImageRecipe struct {
-	K    int    `json:"k"`
-	Mask uint64 `json:"mask"`
-	Unit int    `json:"tear_unit"`
-	Tear int    `json:"tear"`
+	K     int    `json:"k"`
+	Mask  uint64 `json:"mask"`
+	Unit  int    `json:"tear_unit"`
+	Tear  int    `json:"tear"`
+	Retry bool   `json:"retry,omitempty"` // Resize tasks: recovered by an open that asks for the new limit again
 }
 
 // CrashViolation is a violation plus the image that shows it.
@@ -139,13 +148,33 @@ func masks(p, maxBits int) (out []uint64, capped bool) {
 // checkRecovered opens a crash image and applies the C01 oracle. allowed maps
 // header txids to the model state that must be exposed.
 func checkRecovered(cfg pagedrv.Cfg, img []byte, allowed map[uint64]pagedrv.State, probe bool) (viol []pagedrv.Violation, outcome string) {
+	return checkRecoveredResize(cfg, img, allowed, probe, nil)
+}
+
+// resizeRecovery describes how the image of a crashed resizing open is recovered.
+type resizeRecovery struct {
+	Old, New int  // maximum size in pages before / requested by the crashed open (0: unbounded)
+	Prealloc bool // the crashed open asked for preallocation
+	Retry    bool // recover with the options of the crashed open (else: plain open)
+	Top      uint64
+}
+
+func checkRecoveredResize(cfg pagedrv.Cfg, img []byte, allowed map[uint64]pagedrv.State, probe bool, rz *resizeRecovery) (viol []pagedrv.Violation, outcome string) {
 	var env *pagedrv.Env
 	sv := xstate.Run(func() {
 		d := simdisk.FromImage("crash-"+cfg.Name, cfg.PageSize, img)
 		env = pagedrv.Adopt(cfg, d, pagedrv.State{})
 		env.Observer = false
 		var err error
-		if pn := pagedrv.Try(func() { err = env.Open() }); pn != "" {
+		doOpen := env.Open
+		if rz != nil && rz.Retry {
+			o := env.Opts
+			o.Flags |= txfile.FlagUpdMaxSize
+			o.MaxSize = uint64(rz.New * cfg.PageSize)
+			o.Prealloc = rz.Prealloc
+			doOpen = func() error { return env.OpenWith(o) }
+		}
+		if pn := pagedrv.Try(func() { err = doOpen() }); pn != "" {
 			env.Viol = append(env.Viol, pagedrv.Violation{Class: "crash/open-panic", Msg: "opening the crash image panicked: " + pn})
 			outcome = "open-panic"
 			return
@@ -158,6 +187,21 @@ func checkRecovered(cfg pagedrv.Cfg, img []byte, allowed map[uint64]pagedrv.Stat
 		s := env.F.VerifSnapshot()
 		t := s.Txid[s.MetaActive]
 		st, ok := allowed[t]
+		if rz != nil {
+			// the recovering open may itself run open-time transactions on top of what it found
+			if !ok && t > rz.Top && t <= rz.Top+4 {
+				st, ok = allowed[rz.Top]
+				allowed[t] = st
+			}
+			got := int(s.MaxPages)
+			if rz.Retry && got != rz.New || !rz.Retry && got != rz.New && got != rz.Old {
+				env.Viol = append(env.Viol, pagedrv.Violation{Class: "crash/resize-limit", Msg: fmt.Sprintf("recovered limit is %d pages (before the crashed open: %d, requested: %d, recovered by retry: %v)", got, rz.Old, rz.New, rz.Retry)})
+				outcome = "wrong-limit"
+				return
+			}
+			env.Cfg.MaxPages = got
+			env.Opts.MaxSize = uint64(got * cfg.PageSize)
+		}
 		if !ok {
 			var al []uint64
 			for k := range allowed {
@@ -281,6 +325,21 @@ func handleCrash(raw []byte) interface{} {
 	base, ops := env.Disk.Log()
 	k0 := env.LastOpLog
 	curCfg := env.Cfg
+	var rzBase *resizeRecovery
+	if t.Resize {
+		last := t.Path[len(t.Path)-1]
+		if last.K != pagedrv.OReopenWith {
+			return CrashResult{EngineError: "resize task whose last operation is not ReopenWith"}
+		}
+		old := cfg.MaxPages
+		for _, o := range t.Path[:len(t.Path)-1] {
+			if o.K == pagedrv.OReopenWith {
+				old = o.A
+			}
+		}
+		curCfg.MaxPages = old
+		rzBase = &resizeRecovery{Old: old, New: last.A, Prealloc: last.B == 1, Top: env.LastTxid}
+	}
 	// markers: which txids are allowed at each boundary
 	seenImg := map[[32]byte]bool{}
 	simdisk.Walk(base, ops, cfg.PageSize, func(cp *simdisk.CrashPoint) bool {
@@ -308,6 +367,15 @@ func handleCrash(raw []byte) interface{} {
 		if inflight {
 			if st, ok := env.ByTxid[committed+1]; ok { // the commit in flight did succeed later
 				allowed[committed+1] = st
+			}
+		}
+		if rzBase != nil {
+			if inflight {
+				res.EngineError = "resize task with a commit of the driver in flight"
+				return false
+			}
+			for x := committed + 1; x <= rzBase.Top; x++ {
+				allowed[x] = allowed[committed]
 			}
 		}
 		p := len(cp.Pending)
@@ -340,7 +408,7 @@ func handleCrash(raw []byte) interface{} {
 			}
 			for _, v := range variants {
 				rec := ImageRecipe{K: cp.K, Mask: m, Unit: v.unit, Tear: v.tear}
-				if t.Only != nil && *t.Only != rec {
+				if t.Only != nil && *t.Only != rec && !(rzBase != nil && t.Only.Retry && ImageRecipe{K: t.Only.K, Mask: t.Only.Mask, Unit: t.Only.Unit, Tear: t.Only.Tear} == rec) {
 					continue
 				}
 				img := simdisk.BuildImage(cp.Durable, cp.Pending[:p], m, v.unit, v.tear)
@@ -354,7 +422,35 @@ func handleCrash(raw []byte) interface{} {
 				if m != 0 && bits.OnesCount64(m) != p || v.tear >= 0 {
 					res.Nontrivial++
 				}
-				viol, outcome := checkRecovered(curCfg, img, allowed, true)
+				var viol []pagedrv.Violation
+				var outcome string
+				if rzBase == nil {
+					viol, outcome = checkRecovered(curCfg, img, allowed, true)
+				} else {
+					for _, retry := range []bool{false, true} {
+						if t.Only != nil && t.Only.Retry != retry {
+							continue
+						}
+						rz := *rzBase
+						rz.Retry = retry
+						al := map[uint64]pagedrv.State{}
+						for k, x := range allowed {
+							al[k] = x
+						}
+						vv, oc := checkRecoveredResize(curCfg, append([]byte{}, img...), al, true, &rz)
+						if retry {
+							rec.Retry = true
+							oc = "retry:" + oc
+						}
+						res.Outcomes[oc]++
+						outcome = oc
+						if len(vv) > 0 {
+							viol = vv
+							break
+						}
+					}
+					res.Outcomes[outcome]-- // counted below once more
+				}
 				res.Outcomes[outcome]++
 				for _, x := range viol {
 					if len(res.Viol) < 20 {
@@ -540,6 +636,85 @@ func runC01(ctx *core.Ctx, pool *par.Pool) {
 		}
 		endRun()
 	}
+	// crash inside an open that changes the maximum size (its grow/shrink and release transactions):
+	// every history "seed, [resize,] resize" on files with free tails, fragmented free lists,
+	// overwrite mappings, full files and files living in their overflow area
+	resizeTasks, resizeTested := 0, 0
+	{
+		grown := seed{"grown-free-tail", []O{{K: pagedrv.OReopenWith, A: 128}, {K: pagedrv.OBegin}, {K: pagedrv.OAlloc, A: 100}, {K: pagedrv.OWriteAll}, {K: pagedrv.OCommit},
+			{K: pagedrv.OBegin}, {K: pagedrv.OFreeRun, A: 40, B: 60}, {K: pagedrv.OCommit}}}
+		rzAlphabet := []O{{K: pagedrv.OReopenWith, A: 64}, {K: pagedrv.OReopenWith, A: 96}, {K: pagedrv.OReopenWith, A: 128}, {K: pagedrv.OReopenWith, A: 0},
+			{K: pagedrv.OReopenWith, A: 128, B: 1}, {K: pagedrv.OReopenWith, A: 64, B: 1}}
+		rzRuns := []bfsRun{{pagedrv.CfgA, seedTail, 1}, {pagedrv.CfgB, grown, 1}, {pagedrv.CfgA, seedOverflow, 1}, {pagedrv.CfgC, seedFrag, 1}, {pagedrv.CfgB, seedWAL, 1}}
+		if !ctx.Quick() {
+			rzRuns = nil
+			for _, c := range []pagedrv.Cfg{pagedrv.CfgA, pagedrv.CfgB, pagedrv.CfgC} {
+				for _, sd := range []seed{seedEmpty, seedTail, seedFrag, seedWAL, seedFull, seedOverflow, seedOverflowPartial, grown} {
+					if (sd.Name == "full" || sd.Name == "overflow-used" || sd.Name == "overflow-partly-released") && c.MaxPages == 0 {
+						continue
+					}
+					rzRuns = append(rzRuns, bfsRun{c, sd, 2})
+				}
+			}
+		}
+		var tasks []CrashTask
+		for _, run := range rzRuns {
+			cfg := run.Cfg
+			xstate.BFS(ctx, pool, xstate.Spec{Cfg: cfg, Seed: run.Seed.Ops, Alphabet: rzAlphabet, MaxDepth: run.Depth, Flags: []string{"iolog"},
+				OnTransition: func(from *xstate.Node, s *xstate.Succ, isNew bool, to *xstate.Node) {
+					if s.Dead || s.Op.K != pagedrv.OReopenWith {
+						return
+					}
+					tasks = append(tasks, CrashTask{Type: "crash", Cfg: cfg.Name, Path: append(from.Path(), s.Op), MaxBits: maxBits, Tears: true, Resize: true})
+				}})
+		}
+		sort.SliceStable(tasks, func(i, j int) bool { return len(tasks[i].Path) < len(tasks[j].Path) })
+		resizeTasks = len(tasks)
+		raw := make([][]byte, len(tasks))
+		for i := range tasks {
+			raw[i], _ = json.Marshal(tasks[i])
+		}
+		skipped := 0
+		pool.Run(raw, ctx.Deadline, 15*time.Minute, func(i int, out []byte, terr *par.TaskError) {
+			t := tasks[i]
+			if terr != nil {
+				ctx.EngineError("resize crash task [%s]: %s %s", pagedrv.PathString(t.Path), terr.Msg, terr.Stderr)
+				return
+			}
+			var r CrashResult
+			if err := json.Unmarshal(out, &r); err != nil {
+				ctx.EngineError("bad crash result: %v", err)
+				return
+			}
+			if r.EngineError != "" {
+				ctx.EngineError("resize crash task [%s]: %s", pagedrv.PathString(t.Path), r.EngineError)
+				return
+			}
+			resizeTested++
+			images += r.Images
+			distinct += r.Distinct
+			nontrivial += r.Nontrivial
+			boundaries += r.Boundaries
+			capped += r.Capped
+			for k, v := range r.Outcomes {
+				outcomes["resize:"+k] += v
+			}
+			for _, v := range r.Viol {
+				tt := t
+				rec := v.Recipe
+				tt.Only = &rec
+				ctx.Violate(v.Class, fmt.Sprintf("cfg %s history [%s] (crash inside the resizing open, recovered by %s): %s", t.Cfg, pagedrv.PathString(t.Path),
+					map[bool]string{false: "a plain open", true: "an open that asks for the new limit again"}[rec.Retry], v.Msg),
+					map[string]interface{}{"kind": "crash", "task": tt})
+			}
+		}, func(int) { skipped++ })
+		if skipped > 0 {
+			ctx.Cap("resizing opens: deadline reached, %d of %d histories not crash-tested", skipped, len(tasks))
+		}
+	}
+	ctx.Set("resize_histories", resizeTasks)
+	ctx.Set("resize_histories_crash_tested", resizeTested)
+	ctx.Set("resize_rule", "last operation = an open that changes the maximum size (64/96/128 pages or unbounded, with and without preallocation); crash images of its I/O as above; each image recovered by a plain open (limit must be the old or the new one) and by an open asking for the new limit again (limit must be the new one); contents, independent decoding and probes as for every other image")
 	if capped > 0 {
 		ctx.Cap("%d boundaries had more than %d pending units: subsets of size <=2, their complements and all log prefixes only", capped, maxBits)
 	}
